@@ -162,6 +162,10 @@ def _get_attribute_docstring(dataclass: type, field_name: str) -> AttributeDocSt
                 docstring_below,
                 desc_from_cls_docstring=desc_from_cls_docstring,
             )
+    if desc_from_cls_docstring:
+        # The field isn't (re-)declared in this class, but the class docstring documents it
+        # (e.g. a subclass describing an inherited field).
+        return AttributeDocString(desc_from_cls_docstring=desc_from_cls_docstring)
     return None
 
 
